@@ -1,5 +1,5 @@
 TEXTS = {
-    "_hooks": ["9e4b57e verif: exported wrappers for in-package units (build tag verif)", "verif: gofmt hook file"],
+    "_hooks": ["9e4b57e verif: exported wrappers for in-package units (build tag verif)", "2b723cb verif: gofmt hook file"],
     "C01": {
         "text": "Lean theorems over the code-shaped cache model, for every filter, content, object universe and operation history: "
                 "sync/refilter refine the per-key newest-accepted reference semantics (any list without a doubly-listed key), updates are "
@@ -211,7 +211,7 @@ TEXTS.update({
     },
 })
 TEXTS["_engines"].append({"name": "typed", "path": "harness/conc/typed_test.go", "serves_properties": ["C20"],
-    "kind_free_text": "typed (pod, service) and untyped controller/subscription/monitor side by side on a fake server serving mixed types, under testing/synctest (kdriver typed)"})
+    "kind_free_text": "all twelve typed packages and the untyped controller/subscription/monitor side by side on a fake server serving mixed types, under testing/synctest (kdriver typed)"})
 TEXTS["_engines"].append({"name": "rest", "path": "harness/cmd/kharness/rest.go", "serves_properties": ["C20"],
     "kind_free_text": "the twelve typed REST clients through a recording RoundTripper; requests vs the Lean request model (kdriver rest)"})
 TEXTS["_engines"].append({"name": "kextract", "path": "harness/cmd/kextract", "serves_properties": ["C20"],
@@ -227,7 +227,7 @@ TEXTS.update({
                 "determined by the path, the query carries exactly the call's own options, requests are stateless; each package has its own resource. "
                 "Tie: regenerated translator for (a); side-by-side typed/untyped runs and recorded HTTP requests compared with the model for (b), (c).",
         "design_ref": "DESIGN.md §7 C20",
-        "note": "Source equality ignores import blocks and comments. Only pod and service are run side by side with the core; the other ten packages inherit (b) through (a). "
+        "note": "Source equality ignores import blocks and comments. "
                 "The API table (which group/version serves which type) is hand-written and trusted.",
         "technique": "Lean 4 proof (kernel-evaluated equalities on regenerated token streams; adapter homomorphism and replay-restriction theorems; REST request algebra) "
                      "+ regenerated translator + behavioural conformance (typed vs untyped under testing/synctest, recorded REST requests)",
